@@ -706,7 +706,31 @@ def r05_7(ctx, prog, crate):
     iter_count_rule(ctx, "R05.7", prog, crate)
 
 
+def r05_8(ctx, prog, crate):
+    """What an input counter counts: XCount::of_iter(iter) is the number of items the iterator YIELDS - iter.into_iter()
+    .count() - never an estimate (size_hint's upper bound is only a maximum for filter / take_while / chars ...)."""
+    fns = [b for b in prog.lib_bodies(crate) if b.path.startswith("counter::") and b.path.endswith("::of_iter") and b.kind != "Closure"]
+    if not ctx.anchor("R05.8", "counter constructors of_iter", fns, 2):
+        return
+    for b in fns:
+        ctx.saw(b)
+        bodies, ext, ind = prog.callee_closure([b], crate=crate, stop=lambda n: not n.startswith("counter::"))
+        names = {c.callee for x in bodies for c in x.live_calls()}
+        est = sorted(n for n in names if n.rsplit("::", 1)[-1] in ("size_hint", "len", "min_len", "max_len"))
+        cnt = [c for c in b.live_calls() if c.callee.endswith("Iterator::count")]
+        ok = len(cnt) == 1 and not est
+        if ok:
+            srcs = b.prov.op_src(cnt[0].args[0])
+            ok = any(z.kind == "call" and "into_iter" in z.a for z in srcs) and {z.label() for z in srcs if z.kind == "param"} == {"param:" + b.param_name(1)}
+        ctx.check(ok, "R05.8", [b.path, "counts-yielded-items"], "%s is not built from iter.into_iter().count() (estimates used: %s)" % (b.path, est or "none"), b.where(0))
+        if cnt:
+            # the count is what goes into the constructor
+            fed = any(any(z.kind == "call" and z.b == cnt[0].bb for z in b.prov.op_src(a)) and nophi(b.prov.op_src(a)) for c in b.live_calls() if c is not cnt[0] for a in c.args)
+            ctx.check(fed, "R05.8", [b.path, "count-feeds-the-counter"], "the count does not feed the counter's constructor", cnt[0].line())
+
+
 def run(ctx, prog, crate):
+    r05_8(ctx, prog, crate)
     r05_7(ctx, prog, crate)
     r05_6(ctx, prog, crate)
     r05_5(ctx, prog, crate)
